@@ -185,19 +185,17 @@ theorem Left.trichotomy (a b : Left) :
       | true => have := hz.mpr he; omega
     simp [h, this]
 
-/-- `hash_value(Left)` respects `==` **except** for empty left states that differ in `full` -/
-theorem Left.eq_hash_partial (H : List Nat → Nat → Nat) (a b : Left) (h : a.eq b = true)
-    (hfull : a.length = 0 → a.full = b.full) : a.hash H = b.hash H := by
+/-- `hash_value(Left)` respects `==` (after repo patch 61: `full` is hashed only when `length != 0`) -/
+theorem Left.eq_hash (H : List Nat → Nat → Nat) (a b : Left) (h : a.eq b = true) : a.hash H = b.hash H := by
   unfold Left.eq at h
   simp only [Bool.and_eq_true, beq_iff_eq, Bool.or_eq_true] at h
   obtain ⟨hl, hor⟩ := h
   unfold Left.hash
   by_cases h0 : a.length = 0
   · have hb0 : b.length = 0 := by omega
-    simp [h0, hb0, hfull h0]
+    simp [h0, hb0]
   · rcases hor with h1 | ⟨h1, h2⟩
     · exact absurd h1 h0
-    · have hb0 : ¬ b.length = 0 := by omega
-      simp [hl, h1, h2]
+    · simp [hl, h1, h2]
 
 end KV.State
